@@ -94,7 +94,7 @@ class ValueOps:
         h = self.state.heap.get(o)
         if h is not None:
             return h
-        if o.startswith(('P:', 'E:', 'S:', 'G:')):
+        if o.startswith(('P:', 'E:', 'S:', 'G:')) and o not in self.typed_origins:
             return AV(ALLK, org=[deepen(o)], fn=[('cb', root_param(o) or o)])
         return BOT
 
@@ -168,7 +168,7 @@ class ValueOps:
                     if h is not None and o not in seen:
                         seen.add(o)
                         out |= self.deep_orgs(h, seen, depth + 1)
-                    elif h is None:
+                    elif h is None and o not in self.typed_origins:
                         out.add(deepen(o))
         if av.items is not None:
             for i in av.items:
@@ -288,7 +288,7 @@ class ValueOps:
                 old = self.heap_get(o)
             self.state.heap[o] = v if old is None else join(old, v)
             if not is_site(o) and o.startswith('S:'):
-                ext = {x for x in self.deep_orgs(v) if x.startswith(('P:', 'E:')) and root_param(x) != 'self'}
+                ext = {x for x in self.deep_orgs(v) if x.startswith(('P:', 'E:', 'N:')) and root_param(x) != 'self'}
                 for x in ext:
                     self.event('retain', x, 'attr', node, f'stores a reference to {describe_origin(x)} in self.{o[2:]}')
 
